@@ -1542,6 +1542,33 @@ fn mode_iter(args: &Args) {
                 its
             }));
         }
+        // a writer that never comes back (spinning on a full write queue after another thread
+        // panicked inside the maintenance, or blocked for good) must not hang the shard
+        {
+            let t0 = Instant::now();
+            let mut idle = mmv::report::IdleWatch::new(6);
+            let all_done = |whs: &Vec<std::thread::JoinHandle<Vec<(u32, u64, u64, u64)>>>| whs.iter().all(|h| h.is_finished());
+            while !(all_done(&whs) && churn_handle.as_ref().map(|h| h.is_finished()).unwrap_or(true)) {
+                std::thread::sleep(Duration::from_millis(2));
+                let blocked = t0.elapsed() > Duration::from_secs(2) && idle.idle();
+                if blocked || t0.elapsed() > Duration::from_secs(WATCHDOG_SECS.load(Ordering::Relaxed) * 4) {
+                    let text = format!("# engine conmon\nmode iter strategy - sseed {}\n{}\n", seed, cfg.to_line());
+                    let v = if blocked {
+                        Violation { props: vec!["C09"], sig: "deadlock:all-threads-blocked-without-cpu-progress".into(), detail: "writer threads beside iterators have not finished and the process consumed no CPU time for 6 s".into(), op_index: 0 }
+                    } else {
+                        Violation { props: vec![], sig: "watchdog".into(), detail: "writers beside iterators did not finish".into(), op_index: 0 }
+                    };
+                    record(&mut report, &v, &text, &prop, &known, &mut sigs);
+                    report.notes.push("shard stopped early: writer threads did not come back".into());
+                    if out_path.is_empty() {
+                        println!("{}", report.to_json().dump());
+                    } else {
+                        report.write(&out_path);
+                    }
+                    std::process::exit(0);
+                }
+            }
+        }
         let mut writes: HashMap<u32, Vec<(u64, u64, u64)>> = HashMap::new();
         for (k, (vid, c, rt)) in init.iter().enumerate() {
             writes.entry(k as u32).or_default().push((*vid, *c, *rt));
